@@ -109,6 +109,9 @@ def pivot():
     S.append(EnumSpec("ViaMacroNeg", [U("A", disc="-$base", disc_val=-5), U("B"), U("C", disc="$base * $base", disc_val=25), U("D", disc="$base as i8 as i32 + <$t>::MAX as i32", disc_val=260)],
                       derives=d, std_derives=std, repr="i32", macro_args=[("base", "expr", "2 + 3"), ("t", "ty", "u8")],
                       note="macro_rules! body: negated / squared $x:expr fragment and a $t:ty fragment inside discriminant expressions"))
+    S.append(EnumSpec("ConstNamed", [U("A", disc="3", disc_val=3), U("B", disc="A_DISCRIMINANT", disc_val=10), U("C"), U("D", disc="LIMIT_B", disc_val=40), U("E")],
+                      derives=d, std_derives=std, repr="u8",
+                      note="discriminants that name user constants, one of them called like the derive's internal per-variant constant (<Variant>_DISCRIMINANT)"))
     S.append(EnumSpec("ExprTy8", [U("Half", disc="!0 >> 1", disc_val=127), U("Next"), U("H", disabled=True), U("Q", disc="!0 / 4", disc_val=63), U("R")],
                       derives=d, std_derives=std, repr="u8", note="expressions whose value depends on being typed at the repr type (u8): !0 >> 1, !0 / 4"))
     S.append(EnumSpec("ExprTy16", [U("A", disc="!0 >> 4", disc_val=0x0fff), U("B"), U("C", disc="1 << 15", disc_val=32768), U("D")],
@@ -230,7 +233,7 @@ def e2(run, programs, tier, seed, known):
     with open(os.path.join(cdir, "Cargo.toml"), "w") as f:
         f.write('[package]\nname = "sv_c06_e2"\nversion = "0.0.0"\nedition = "2021"\n[dependencies]\nstrum = { path = "%s/strum", features = ["derive"] }\n[workspace]\n' % fw.REPO)
     shutil.copy(fw.lockfile(), os.path.join(cdir, "Cargo.lock"))
-    src = ["#![allow(dead_code, non_camel_case_types, unused)]", "pub const BASE_EXPR: u8 = 10;"]
+    src = ["#![allow(dead_code, non_camel_case_types, unused, non_upper_case_globals)]", "pub const BASE_EXPR: u8 = 10;", "pub const A_DISCRIMINANT: u8 = 10;", "pub const LIMIT_B: u8 = 40;"]
     for sp in specs:
         sp2 = copy.deepcopy(sp)
         sp2.std_derives = ["Debug"]
@@ -300,6 +303,8 @@ def build(tier, seed):
     programs = []
     for i, s in enumerate(specs):
         consts = "pub const BASE_EXPR: u8 = 10;\n" if s.name == "Expr" else ""
+        if s.name == "ConstNamed":
+            consts = "#[allow(non_upper_case_globals)]\npub const A_DISCRIMINANT: u8 = 10;\npub const LIMIT_B: u8 = 40;\n"
         programs.append(_enum_harness(s, "p%03d" % i, s.role, consts))
     return {
         "programs": programs,
